@@ -734,6 +734,33 @@ func init() {
 						w.expect("C03", "A5-v1-malformed", verr, ok, false, "v1 Foundation update with a truncated payload")
 					}
 				}
+				if fnd != nil && other != nil {
+					// two inputs: the Foundation's and a stranger's. Whole-transaction
+					// signatures on both authorise the update; the Foundation's input
+					// signed over explicit fields only does not, whatever the stranger
+					// signs over the whole transaction.
+					t, ok := w.spendV1(sc.s, []types.SiacoinElement{*fnd, *other}, w.wallets[0].addrs[0].addr)
+					if ok {
+						t.ArbitraryData = [][]byte{upd()}
+						w.signAllV1(sc.s, &t)
+						verr, okc := sc.offer([]types.Transaction{t}, nil, offerOpt{})
+						w.expect("C03", "A5-v1-two-inputs-authorized", verr, okc, true, "v1 Foundation update in a two-input transaction, every input whole-transaction-signed")
+						if okc {
+							p := t
+							p.Signatures = append([]types.TransactionSignature(nil), t.Signatures...)
+							w.makePartial(&p)
+							for i := range p.Signatures {
+								if p.Signatures[i].ParentID != types.Hash256(fnd.ID) {
+									p.Signatures[i].CoveredFields = types.CoveredFields{WholeTransaction: true}
+								}
+							}
+							w.resignV1(sc.s, &p)
+							verr, ok = sc.offer([]types.Transaction{p}, nil, offerOpt{})
+							w.expect("C03", "A5-v1-stranger-whole-sig", verr, ok, false, "v1 Foundation update whose Foundation input is signed over explicit fields only while another party's input is signed over the whole transaction")
+							w.stats.Inc("probe.A5-v1-stranger-whole-sig")
+						}
+					}
+				}
 			}
 		}},
 	)
